@@ -14,6 +14,21 @@ package main
 //     lifetime restarts) -> either; the model follows the implementation (unspecified_skipped)
 //   - idle deadline = time of the last Save + IdleTimeout (documented: only Save refreshes it;
 //     the middleware saves at the end of every request unless the session was destroyed)
+//
+// compound requests (several API calls in one request, Op.Act == "seq"): the model applies the
+// calls in order. Set/Delete change the session's data, Regenerate/Reset end the current id and
+// continue under a newly generated one (Reset with empty data), Save (store API) persists what
+// the session holds at that moment under its current id; the middleware persists once, when
+// the handler has returned, unless Destroy was called. Session.Save on a middleware-managed
+// session is documented to have no effect.
+//   - neither the statement nor docs/middleware/session.md say what a session object is after
+//     Destroy. From the first Destroy of a request on, what THAT request reads back from its own
+//     session object is unspecified, and so is what a store-API Save after Destroy persists under
+//     the ids that object carried since (the model adopts whatever the storage then holds under
+//     exactly those ids). Everything else stays exact: nothing written after Destroy may reach any
+//     other id, a middleware-managed destroyed session is never persisted, and every later request
+//     of anybody sees either exactly the data last saved under a live id it presents or an empty
+//     fresh session.
 
 import (
 	"fmt"
@@ -263,13 +278,13 @@ func (w *world) judgeSession(op Op, o *obsT, info *stepInfo) *viol {
 		return vio("op-error "+tag+" act="+op.Act, "a session operation returned an error", o.Err, "no error")
 	}
 	destroyed := false
-	newID := func(kind string) *viol {
+	postID := ""
+	if o.Post != nil {
+		postID = o.Post.ID
+	}
+	newID := func(kind, id string) *viol {
 		old := cur.id
 		m.kill(old, kind)
-		id := ""
-		if o.Post != nil {
-			id = o.Post.ID
-		}
 		if id == old || id == p {
 			return vio("kept-id-after-"+kind+" "+tag, "the session keeps its previous id", id, "a newly generated id")
 		}
@@ -304,35 +319,119 @@ func (w *world) judgeSession(op Op, o *obsT, info *stepInfo) *viol {
 		m.kill(cur.id, "destroy")
 		destroyed = true
 	case "regen":
-		if v := newID("regenerate"); v != nil {
+		if v := newID("regenerate", postID); v != nil {
 			return v
 		}
 	case "login":
-		if v := newID("regenerate"); v != nil {
+		if v := newID("regenerate", postID); v != nil {
 			return v
 		}
 		cur.data[op.K] = op.V
 	case "saveregen":
 		cur.data[op.K] = op.V
-		if v := newID("regenerate"); v != nil {
+		if v := newID("regenerate", postID); v != nil {
 			return v
 		}
 	case "regendestroy":
-		if v := newID("regenerate"); v != nil {
+		if v := newID("regenerate", postID); v != nil {
 			return v
 		}
 		m.kill(cur.id, "destroy")
 		destroyed = true
 	case "reset":
-		if v := newID("reset"); v != nil {
+		if v := newID("reset", postID); v != nil {
 			return v
 		}
 		cur.data = map[string]string{}
 	}
-	saved := !destroyed && (op.API == "mw" || (op.Act != "get" && op.Act != "setns"))
-	if saved {
+	persist := func() {
 		delete(m.dead, cur.id)
-		m.live[cur.id] = &msess{Data: cur.data, Idle: t + IdleS, HasAbs: cur.hasAbs, AbsLo: cur.absLo, AbsHi: cur.absHi, Origin: cur.origin}
+		m.live[cur.id] = &msess{Data: copyData(cur.data), Idle: t + IdleS, HasAbs: cur.hasAbs, AbsLo: cur.absLo, AbsHi: cur.absHi, Origin: cur.origin}
+	}
+	saved := !destroyed && (op.API == "mw" || (op.Act != "get" && op.Act != "setns"))
+	resaved := false // a store-API Save followed Destroy in the same request
+	if op.Act == "seq" {
+		// several API calls in one request
+		if len(o.Mid) != len(op.Seq) {
+			return vio("compound-request-incomplete "+tag, "the handler did not get through its calls", len(o.Mid), len(op.Seq))
+		}
+		info.Outcome += " seq=" + seqClass(op.Seq)
+		var own []string    // ids the session object carried from the first Destroy on
+		savedCur := false   // store API: the session was saved under its current id and not ended since
+		for i, a := range op.Seq {
+			after := o.Mid[i]
+			if destroyed && (a.Name == "get" || a.Name == "set" || a.Name == "del") {
+				info.Unspec++ // reads and writes on a destroyed session object: unspecified, must stay private
+				continue
+			}
+			switch a.Name {
+			case "get":
+			case "set":
+				cur.data[a.K] = a.V
+			case "del":
+				delete(cur.data, a.K)
+			case "save":
+				switch {
+				case op.API == "mw": // documented no-op
+				case destroyed:
+					resaved = true
+				default:
+					persist()
+					savedCur = true
+				}
+			case "destroy":
+				m.kill(cur.id, "destroy")
+				destroyed, savedCur = true, false
+				own = append(own, cur.id)
+			case "regen", "reset":
+				kind := "regenerate"
+				if a.Name == "reset" {
+					kind = "reset"
+				}
+				if v := newID(kind, after.ID); v != nil {
+					return v
+				}
+				if a.Name == "reset" {
+					cur.data = map[string]string{}
+				}
+				savedCur = false
+				if destroyed {
+					own = append(own, cur.id)
+				}
+			}
+		}
+		switch {
+		case destroyed:
+			saved = false
+			if resaved {
+				// unspecified: the model follows the implementation, for the ids of this object only
+				actual, _ := w.contents()
+				for _, id := range own {
+					a := actual[id]
+					if a == nil || a.Bad != "" {
+						continue
+					}
+					info.Unspec++
+					idle := t + IdleS
+					if a.Exp != 0 {
+						idle = a.Exp
+					}
+					delete(m.dead, id)
+					m.live[id] = &msess{Data: copyData(a.Data), Idle: idle, HasAbs: a.HasAbs, AbsLo: a.Abs, AbsHi: a.Abs, Origin: "saved-after-destroy"}
+				}
+			}
+		case op.API == "mw":
+			saved = true
+			persist()
+		default:
+			saved = false // persisted where the sequence said so
+			if savedCur {
+				// the emission rule below applies: the response must name the id the session was saved under
+				saved = true
+			}
+		}
+	} else if saved {
+		persist()
 	}
 	// what the response tells the client
 	em := o.Emit
@@ -342,6 +441,8 @@ func (w *world) judgeSession(op Op, o *obsT, info *stepInfo) *viol {
 		if !em.Present || em.Expired || em.Value != cur.id {
 			return vio("emit-not-session-id "+src+" "+tag, "the response does not name the id under which the session was saved", em, cur.id)
 		}
+	case destroyed && resaved:
+		info.Unspec++ // Save after Destroy: unspecified
 	case destroyed:
 		if em.Present && !em.Expired && em.Value != "" {
 			return vio("emit-names-id-after-destroy "+src+" "+tag, "the response still names a session id after Destroy", em, "expired / absent")
